@@ -602,7 +602,7 @@ def run(ctx):
                      'keeps the mode, as the LatexArgumentSpec spelling does (C10 R10i)', 1)
     from . import c10 as _c10
     from .. import core as _core
-    _c10.run(_core.Proxy(ctx, 'R16o', ('R10i',)))
+    _core.run_proxied(ctx, _c10, 'R16o', ('R10i',))
 
     # ---- R16n
     ctx.rule('R16n', 'a boolean option of a legacy method that selects a parsing-state switch (environments) reaches '
@@ -617,6 +617,14 @@ def run(ctx):
     ctx.rule('R16q', 'MacroStandardArgsParser: end of input where an optional star may stand means "no star" '
                      '(token read inside a handler for LatexWalkerEndOfStream)', 1)
     _legacy_star_at_eos(ctx, repo)
+
+    # ---- R16r, R16s
+    ctx.rule('R16r', 'error-strictness options (*_is_error) of the parsers built by legacy methods are on when the '
+                     'walker is strict', 1)
+    _strictness_follows_walker(ctx, w)
+    ctx.rule('R16s', 'MacroStandardArgsParser.parse_args: every sub-parse given a token reader reads from the running '
+                     'position (fresh reader at pos=p, or a kept reader re-positioned whenever p changes)', 1)
+    _reader_at_running_position(ctx, repo)
 
     return 'other', (
         'Decides the wiring of the backward-compatible entry points onto the new parser objects: '
@@ -905,3 +913,107 @@ def _legacy_star_at_eos(ctx, repo):
                    'signature given as an argument string reports the star absent', construct='parse_args: star at end of input')
     if n == 0:
         ctx.unknown('R16q', bm, pa, 'no token read for a star slot found', construct='parse_args: star at end of input')
+
+
+
+def _strictness_follows_walker(ctx, w):
+    """R16r: an error-strictness option (`*_is_error`) of a parser built by a legacy method is on
+    when the walker is strict (tolerant_parsing False), as it is by default for the parser class"""
+    n = 0
+    for shim, fnode in sorted(w.functions.items()):
+        if not shim.startswith('_pyltxenc2_LatexWalker_') or '.' in shim:
+            continue
+        for c in iter_own(fnode):
+            if not isinstance(c, ast.Call):
+                continue
+            for k in c.keywords:
+                if k.arg and k.arg.endswith('_is_error'):
+                    n += 1
+                    v = _pval(k.value, {'self.tolerant_parsing': False})
+                    ctx.decide('R16r', v is not _UNK and bool(v), w, c,
+                               '%s: %s=%s is on in strict mode' % (shim, k.arg, unparse(k.value)),
+                               '%s builds its parser with %s=%s, which is off (or undecided) when the walker is strict: '
+                               'where the pylatexenc-3 parser reports an error (a lone \\begin or \\end in place of an '
+                               'expression) the legacy call returns a node' % (shim, k.arg, short(k.value, 40)),
+                               construct='%s: %s' % (shim, k.arg))
+    if n == 0:
+        ctx.unknown('R16r', w, None, 'no strictness option found in the legacy methods', construct='strictness options')
+
+
+def _reader_at_running_position(ctx, repo):
+    """R16s: in MacroStandardArgsParser.parse_args every sub-parse that is given a token reader gets
+    one that stands at the running position: created with pos=<p> in the same iteration, or -- when
+    one reader is kept across the slots -- re-positioned to the new <p> on every path that changes <p>"""
+    bm = repo.mod(BASE)
+    pa = bm.methods('MacroStandardArgsParser').get('parse_args')
+    if pa is None:
+        raise AnalysisError('anchor vanished: MacroStandardArgsParser.parse_args')
+    rets = [r for r in iter_own(pa) if isinstance(r, ast.Return) and isinstance(r.value, ast.Tuple) and len(r.value.elts) == 3]
+    pvar = None
+    for r in rets:
+        e = r.value.elts[2]
+        if isinstance(e, ast.BinOp) and isinstance(e.op, ast.Sub) and isinstance(e.left, ast.Name):
+            pvar = e.left.id
+    loops = [l for l in pa.body if isinstance(l, ast.For)]
+    if pvar is None or len(loops) != 1:
+        ctx.unknown('R16s', bm, pa, 'running position / argument loop not found', construct='parse_args: reader position')
+        return
+    lp = loops[0]
+    kept = {}
+    for st in pa.body:
+        if st is lp:
+            break
+        if isinstance(st, ast.Assign) and len(st.targets) == 1 and isinstance(st.targets[0], ast.Name) and \
+                isinstance(st.value, ast.Call) and call_name(st.value) == 'make_token_reader':
+            kept[st.targets[0].id] = st
+    is_ev = lambda c: call_name(c) in ('make_token_reader', 'move_to_pos_chars', 'parse_content')
+    try:
+        allc = symex.Walker(want_exits=True, trace=True, is_sink=is_ev).run_block(lp.body)
+    except symex.TooManyPaths:
+        ctx.unknown('R16s', bm, lp, 'too many paths', construct='parse_args: reader position')
+        return
+    bad = None
+    n_sub = 0
+
+    def kept_positions(env):
+        pos_of = dict((r_, pvar) for r_ in kept)      # invariant at the loop head: kept readers stand at p
+        for node, sub in [t_ for t_ in env.get('#trace', ()) if isinstance(t_[0], ast.Call)]:
+            if call_name(node) == 'move_to_pos_chars' and isinstance(call_recv(node), ast.Name) and \
+                    call_recv(node).id in pos_of:
+                pos_of[call_recv(node).id] = unparse(sub.args[0]) if sub is not None and sub.args else '?'
+        return pos_of
+    for cs in allc:
+        if cs.kind in ('end', 'continue'):
+            if kept:
+                endp = cs.env.get(pvar)
+                endp_t = unparse(endp) if isinstance(endp, ast.AST) else pvar
+                for r_, at_t in kept_positions(cs.env).items():
+                    if at_t != endp_t and bad is None:
+                        bad = (cs, 'the kept reader %s is left at %s although the running position has become %s'
+                               % (r_, at_t, endp_t))
+            continue
+        if not (isinstance(cs.node, ast.Call) and call_name(cs.node) == 'parse_content'):
+            continue
+        tr = kwarg(cs.sub, 'token_reader')
+        if tr is None:
+            continue
+        n_sub += 1
+        d = symex.resolve(tr, cs.env)
+        if isinstance(d, ast.Call) and call_name(d) == 'make_token_reader':
+            at = kwarg(d, 'pos')
+            at_t = unparse(at) if at is not None else '?'
+        elif isinstance(tr, ast.Name) and tr.id.split('@')[0] in kept:
+            at_t = kept_positions(cs.env)[tr.id.split('@')[0]]
+        else:
+            at_t = '?'
+        cur = cs.env.get(pvar)
+        want_t = unparse(cur) if isinstance(cur, ast.AST) else pvar
+        if at_t != want_t and bad is None:
+            bad = (cs, 'the reader given to the sub-parse stands at %s while the running position is %s' % (at_t, want_t))
+    ctx.decide('R16s', bad is None and n_sub > 0, bm, bad[0].node if bad and bad[0].node is not None else lp,
+               'every sub-parse reads from the running position %s (%d sub-parse path(s))' % (pvar, n_sub),
+               'MacroStandardArgsParser.parse_args: on the path [%s] %s: the optional argument is looked for at a stale '
+               'position (after a star the `[` is missed) and the legacy parser reports other arguments than the '
+               'argument-string spelling' % (' & '.join(bad[0].cond_src())[-140:] if bad else '', bad[1] if bad else
+                                             'no sub-parse with a token reader found'),
+               construct='parse_args: reader position')
